@@ -2,7 +2,7 @@
 use std::collections::BTreeSet;
 
 use aranya_runtime::{
-    Address, Command, CommandExt, MAX_SYNC_MESSAGE_SIZE, MemSpill, PeerCache, StorageProvider, SyncError, SyncIncoming,
+    Address, Command, CommandExt, MAX_SYNC_MESSAGE_SIZE, PeerCache, StorageProvider, SyncError, SyncIncoming,
     SyncRequester, SyncResponder,
 };
 use proptest::prelude::*;
@@ -163,7 +163,7 @@ pub fn session<SA: StorageProvider, SB: StorageProvider>(
                 }
                 let added = a
                     .client
-                    .add_commands(&mut trx, &mut a.sink, &cmds_v, &mut a.bufs, MemSpill::new)
+                    .add_commands(&mut trx, &mut a.sink, &cmds_v, &mut a.bufs, crate::replica::CappedSpill::new)
                     .map_err(|e| {
                         Failure::new(
                             "C17: the requester could not add the received commands in order",
@@ -304,12 +304,29 @@ pub fn drain<SA: StorageProvider, SB: StorageProvider>(
             // Every such session re-sends >= 1 response (up to 100 commands) of the prefix both sides share
             // and the requester then records it in its peer cache, so their number is bounded by the
             // size of that shared prefix; beyond that the sync is stalled.
-            ensure!(
-                out.zero_progress <= common0 / 100 + 2 || (std::env::var_os("VH_SYNC_TRACE").is_some() && out.sessions < 40),
-                "C16: repeated sync sessions deliver no missing command (stalled)",
-                "{detail}; {} sessions without progress, {common0} shared commands",
-                out.zero_progress
-            );
+            if out.zero_progress > common0 / 100 + 2 {
+                // Stalled. Listed finding (F20): the requester's sample was cut down to its peer-cache heads, all of
+                // which the responder knows, and the responder nevertheless schedules (and re-sends, lowest first,
+                // capped at 100 segments) history the requester already holds. Any other stall keeps the generic
+                // signature.
+                let heads_known = a.heads().map(|h| h.iter().all(|x| b_ids.contains(&x.0))).unwrap_or(false);
+                // an untruncated sample names every requester head that is not already below a peer-cache head
+                let sample_is_cache = s.sample_len < 100;
+                let sig = if heads_known && sample_is_cache {
+                    "C16: sync stalled: the responder keeps re-sending held history although every head of the requester (its whole sample) is known to it"
+                } else {
+                    "C16: repeated sync sessions deliver no missing command (stalled)"
+                };
+                return Err(Failure::new(
+                    sig,
+                    format!(
+                        "{detail}; {} sessions without progress, {common0} shared commands; requester heads known to responder: {heads_known}; sample {} vs {} cache heads",
+                        out.zero_progress,
+                        s.sample_len,
+                        ca.heads().len()
+                    ),
+                ));
+            }
             last_was_zero = true;
             // Listed finding: the responder located none of the requester's sampled commands and re-sent
             // only commands the requester already holds; progress resumes through the peer cache. Soft: the
@@ -501,7 +518,7 @@ pub fn run(ctx: &Ctx, which: &str) -> ! {
          missing; finally A >= B and (bidirectional) identical heads/facts/hello; non-trivial = more than 2 sessions or a \
          multi-response session",
         || sync_case(60, 2),
-        ctx.pick(1200, 50_000),
+        ctx.pick(700, 50_000),
         check,
     );
     rep.explore(
@@ -509,7 +526,7 @@ pub fn run(ctx: &Ctx, which: &str) -> ! {
         "same with <= 400 recipe steps dominated by runs (hundreds to thousands of commands: beyond 100 commands per response and \
          100 segments per session)",
         || sync_case(400, 14),
-        ctx.pick(40, 1_500),
+        ctx.pick(24, 1_500),
         check,
     );
     rep.finish()
